@@ -13,5 +13,10 @@ Step(G) == /\ m' = [j \in 1..2 * N |-> Rot(G, m[j])]
 SimNext == \E G \in {RandG(m)} : Step(G)
 Valid == ValidMap(m) /\ ValidMap(minv)
 InverseOK == IsInverse(m, minv)
-EmitSim == PrintT(ToString(<<"S", TLCGet("level"), Enc(lbl'), EncM(m'), EncM(minv')>>))
+\* the stabilizer group of to_state(m', 0): images of all Z-strings -- products of up to N generators with their
+\* exact signs, used by the drivers as observables with determined outcomes / non-zero expectations
+ZStrings == {[s |-> [i \in 1..N |-> IF i \in A THEN 3 ELSE 0], k |-> 0] : A \in SUBSET (1..N)}
+RECURSIVE SetSeq(_)
+SetSeq(T) == IF T = {} THEN <<>> ELSE LET x == CHOOSE x \in T : TRUE IN <<<<Enc(x), Enc(Apply(m', x))>>>> \o SetSeq(T \ {x})
+EmitSim == PrintT(ToString(<<"S", TLCGet("level"), Enc(lbl'), EncM(m'), EncM(minv'), SetSeq(ZStrings)>>))
 =============================================================================
